@@ -343,10 +343,26 @@ func (in *Interp) fmtArg(verb byte, flags string, arg Value, lenient bool) Term 
 			return mkStr(fmt.Sprintf("%"+flags+string(verbOrD(verb)), v.U))
 		}
 	}
-	if lenient {
-		return mkStr("<" + it.T.String() + ">")
+	// error values and Stringers print through their method (%v, %s, %w, %q)
+	if verb == 'v' || verb == 's' || verb == 'w' || verb == 'q' {
+		for _, mn := range []string{"Error", "String"} {
+			sel := in.L.prog.MethodSets.MethodSet(it.T).Lookup(nil, mn)
+			if sel == nil {
+				continue
+			}
+			if sig, ok := sel.Type().(*types.Signature); !ok || sig.Params().Len() != 0 || sig.Results().Len() != 1 {
+				continue
+			}
+			if m := in.L.prog.MethodValue(sel); m != nil {
+				if t, ok := in.call(m, []Value{it.V}).(Term); ok && t.S == SStr {
+					if verb == 'q' {
+						return strConcat(strConcat(mkStr(`"`), t), mkStr(`"`))
+					}
+					return t
+				}
+			}
+		}
 	}
-	// error values: message is opaque
 	return mkStr("<" + it.T.String() + ">")
 }
 
